@@ -1357,6 +1357,18 @@ impl<'a> UserModel<'a> {
         column_end: i32,
         width: f64,
     ) -> Result<(), String> {
+        // Validate the whole request first: a failure half way would leave some columns resized
+        self.model.workbook.worksheet(sheet)?;
+        if column_start <= column_end {
+            if !is_valid_column_number(column_start) || !is_valid_column_number(column_end) {
+                return Err(format!(
+                    "Column range '{column_start}:{column_end}' is not valid."
+                ));
+            }
+            if width < 0.0 {
+                return Err(format!("Can not set a negative width: {width}"));
+            }
+        }
         let mut diff_list = Vec::new();
         for column in column_start..=column_end {
             let old_value = self.model.get_column_width(sheet, column)?;
@@ -1506,6 +1518,16 @@ impl<'a> UserModel<'a> {
         row_end: i32,
         height: f64,
     ) -> Result<(), String> {
+        // Validate the whole request first: a failure half way would leave some rows resized
+        self.model.workbook.worksheet(sheet)?;
+        if row_start <= row_end {
+            if !is_valid_row(row_start) || !is_valid_row(row_end) {
+                return Err(format!("Row range '{row_start}:{row_end}' is not valid."));
+            }
+            if height < 0.0 {
+                return Err(format!("Can not set a negative height: {height}"));
+            }
+        }
         let mut diff_list = Vec::new();
         for row in row_start..=row_end {
             let old_value = self.model.get_row_height(sheet, row)?;
